@@ -298,10 +298,17 @@ func transformReplay(args []string) {
 				shared[tk] = didtransformer.New(opts...)
 			}
 
-			res, err := shared[tk].TransformDocument(&protocol.ResolutionModel{Doc: doc},
-				protocol.TransformationInfo{"id": tDID, "published": true})
+			rm := &protocol.ResolutionModel{Doc: doc}
+
+			res, err := shared[tk].TransformDocument(rm, protocol.TransformationInfo{"id": tDID, "published": true})
 			if err != nil {
 				fail("transform-error", err.Error(), nil, nil)
+				return
+			}
+
+			// the same state resolved again (a state is resolved many times) gives the same result
+			if again, err2 := shared[tk].TransformDocument(rm, protocol.TransformationInfo{"id": tDID, "published": true}); err2 != nil || digestJSON(again) != digestJSON(res) {
+				fail("second-resolution-differs", fmt.Sprint(err2), generic(res.Document), generic(again))
 				return
 			}
 
